@@ -9,6 +9,7 @@ import asyncio
 import gc
 import json
 import logging
+import errno
 import os
 import random
 import shutil
@@ -332,6 +333,12 @@ class World(object):
                                     kw))
         _hm.RECORDER = _rec
         self.hook_scripts = {}
+        self.stream_fail = bool(cfg.get('stream_fail'))
+        # workers that write all the time: whenever the daemon looks whether
+        # their pipe is readable (the flush before a pipe is closed), there
+        # is something in it
+        self.chatty_markers = set(cfg.get('chatty_markers') or ())
+        self._chatty_step = {}
         self.snapshot_fn = None    # used around dispatch (C10/C11)
         self.reply_hooks = []      # callbacks(req, entry) on a matched reply
         self.dispatch_hooks = []   # callbacks(req) when a dispatch returned
@@ -373,6 +380,22 @@ class World(object):
                 return ctx
         circus.arbiter.zmq = ModProxy(zmq, Context=_Ctx)
         circus.arbiter.socket = ModProxy(socket, getfqdn=lambda: 'sim.host')
+
+        world = self
+        import select as _select
+
+        class _ChattyPoll(object):
+            def __init__(self):
+                self._p = _select.poll()
+
+            def register(self, fd, mask):
+                world._chatty_write(fd)
+                return self._p.register(fd, mask)
+
+            def poll(self, *a):
+                return self._p.poll(*a)
+        import circus.stream.redirector as _redir
+        _redir.select = ModProxy(_select, poll=_ChattyPoll)
 
         def _no_multicast(addr, port):
             # (daemons built from a configuration file have a multicast
@@ -418,6 +441,29 @@ class World(object):
             if self.scratch:
                 shutil.rmtree(self.scratch, ignore_errors=True)
             self.arbiter = None
+
+    def _chatty_write(self, fd):
+        if not self.chatty_markers:
+            return
+        if self._chatty_step.get(fd) == self.sim.steps:
+            return          # once per loop step and pipe
+        for p in self.kernel.procs.values():
+            if not p.alive or p.marker not in self.chatty_markers or \
+                    p.popen is None:
+                continue
+            for f, pe in ((p.popen.stdout, p.stdout_w),
+                          (p.popen.stderr, p.stderr_w)):
+                try:
+                    if f is None or f.closed or f.fileno() != fd or \
+                            pe is None or pe.closed:
+                        continue
+                    self._chatty_step[fd] = self.sim.steps
+                    os.set_blocking(pe.fd, False)
+                    os.write(pe.fd, b'still here\n')
+                    self.sim.rec('chatty_write', p.pid)
+                except (OSError, ValueError):
+                    pass
+                return
 
     def scratch_dir(self):
         if self.scratch is None:
@@ -517,9 +563,16 @@ class World(object):
         if wc.get('stream_objects'):
             # a stream given as an object (embedding programs do that): the
             # watcher's options then hold something JSON cannot encode
+            world = self
+
             class _Sink(object):
                 def __call__(self, data):
-                    pass
+                    if world.stream_fail:
+                        # the disk is full / the custom stream chokes
+                        e = OSError(errno.ENOSPC, 'No space left on device '
+                                    '(simulated)')
+                        e.simulated = True
+                        raise e
 
                 def close(self):
                     pass
